@@ -28,6 +28,7 @@ import (
 	"github.com/youchainhq/go-youchain/rlp"
 	"github.com/youchainhq/go-youchain/trie"
 	"math/big"
+	"sort"
 	"sync"
 )
 
@@ -432,8 +433,16 @@ func (st *StateDB) GetWithdrawQueue() *WithdrawQueue {
 func (st *StateDB) RemoveWithdrawRecords(index []int) bool {
 	queue, _ := st.getWithdrawQueue()
 	removedRecords := queue.RemoveRecords(index)
-	for _, record := range removedRecords {
-		st.validatorJournal.append(&validatorDelWithdrawChange{address: &record.Validator, prev: record})
+	// journal in descending position order: revert replays the journal backwards, so the
+	// records are put back lowest position first, each at its original position.
+	order := make([]int, len(index))
+	for i := range order {
+		order[i] = i
+	}
+	sort.Slice(order, func(a, b int) bool { return index[order[a]] > index[order[b]] })
+	for _, i := range order {
+		record := removedRecords[i]
+		st.validatorJournal.append(&validatorDelWithdrawChange{address: &record.Validator, prev: record, pos: index[i]})
 	}
 	return true
 }
